@@ -18,8 +18,9 @@
    * F.. / X.. states (kinds KLoadFixed / KRefreshFixed / KRefreshOf): THE CODE AS IT IS in /repo,
      i.e. with the fix commits da46472 (C19-F1: the lock is acquired), 19ec63c (C19-F2: copy to a
      temporary name, then os.replace), 160dd4a (C19-F3: a missing bundled version is looked up in
-     the installed folder; except tuples) and b23f2f7 (C19-F4: tolerant read and atomic write of
-     last_update.txt); D.. states: _safe_move_tmp_to_folder, unchanged by the fixes;
+     the installed folder; except tuples), b23f2f7 (C19-F4: tolerant read and atomic write of
+     last_update.txt) and, with the switch parse_fallback on, 8dfe516 (C19-F5: an unparseable
+     cache copy falls back to the installed file); D.. states: _safe_move_tmp_to_folder, unchanged by the fixes;
    * L.. / P.. / R.. states (kinds KLoad / KRefresh): the behaviour BEFORE those commits (lock
      object constructed but never acquired, in-place copy, fall-through to the network), kept
      as the record of the repaired defects.
@@ -218,7 +219,7 @@ Inductive kind : Set :=
 | KLoad (v : nat)         (* load_schema_version(v), behaviour BEFORE da46472/19ec63c/160dd4a/b23f2f7 *)
 | KRefresh                (* cache_xml_versions(), behaviour before those commits *)
 | KDownload (f : nat)     (* _safe_move_tmp_to_folder(tmp, HED<f>.xml) *)
-| KLoadFixed (v : nat)    (* load_schema_version(v), THE CODE AS IT IS (with the four fix commits) *)
+| KLoadFixed (v : nat)    (* load_schema_version(v), THE CODE AS IT IS (with the fix commits; 8dfe516 = parse_fallback true) *)
 | KRefreshFixed           (* cache_xml_versions(), the code as it is *)
 | KRefreshOf (o : nat).   (* the same, as one of several calls made by OS process o *)
 
@@ -247,7 +248,7 @@ Inductive pc : Set :=
 | DOpen (f : nat)        (* copyfile(tmp, cache/tmpname): open *)
 | DWrite (f i : nat)     (* copyfile: write chunk i *)
 | DReplace (f : nat)     (* os.replace(cache/tmpname, dest) *)
-(* -- the code as it is (/repo with da46472, 19ec63c, 160dd4a, b23f2f7) -- *)
+(* -- the code as it is (/repo with da46472, 19ec63c, 160dd4a, b23f2f7; 8dfe516 = parse_fallback on) -- *)
 | FList1                 (* get_hed_versions: os.listdir *)
 | FClean                 (* ANTI-PATTERN only: remove every *.tmp in the folder, outside the lock *)
 | FEnter                 (* CacheLock.__enter__: read the time stamp (tolerant), threshold test *)
